@@ -44,6 +44,11 @@ func runC03(c *an.Ctx) {
 	c.As(map[string]string{"R11i": "R03q"}, func() { r11i(c) })
 	// round 8
 	c.As(map[string]string{"R10b": "R03r", "R10c": "R03s"}, func() { r10bc(c) })
+	// round 9
+	r03t(c)
+	c.As(map[string]string{"R17t": "R03u"}, func() { r17t(c) })
+	c.As(map[string]string{"R01d": "R03v"}, func() { r01d(c) })
+	c.As(map[string]string{"R11e": "R03w"}, func() { r11e(c) })
 }
 
 // constsLeadingTo: TaskState/other enum constants k such that an `x == k` test's true edge leads into (dominates) target's block.
